@@ -9,7 +9,7 @@ import sys
 ROOT = os.path.join(os.path.dirname(os.path.dirname(os.path.abspath(__file__))), "coq", "theories")
 
 
-STANDALONE = {"AckProofs", "LocksProofs", "LedgerProofs", "LedgerUpdProofs", "PoolProofs", "WindowProofs", "MicroProofs", "MicroStats", "MicroBound", "MicroBal", "PrecondProofs"}
+STANDALONE = {"AckProofs", "LocksProofs", "LedgerProofs", "LedgerUpdProofs", "PoolProofs", "WindowProofs", "MicroProofs", "MicroStats", "MicroBound", "MicroBal", "MicroAll", "PrecondProofs"}
 
 
 def statements(modname):
@@ -96,11 +96,12 @@ spec("C05_micro", "Accounting under every interleaving of the micro steps of put
     (M, "mcall_atomic", None), (M, "mdelete_atomic", None), (M, "mput_atomic", None), (M, "minv_step", None), (M, "minv_run", None),
     (M, "micro_accounting_exact", None), (M, "racing_puts_one_wins", None), (M, "micro_schedule_refines", None),
 ])
-spec("C04_micro", "Delete split at its schedule points: the mark hides the key under every interleaving of micro steps", [M], [
+spec("C04_micro", "Delete split at its schedule points: the mark hides the key under every interleaving of micro steps", [M, "MicroBal", "MicroAll"], [
+    ("MicroAll", "micro_hidden_all", None), ("MicroAll", "micro_hidden_run", None),
     (M, "micro_soft_deleted_stays_hidden", None), (M, "mcall_atomic", None), (M, "mdelete_atomic", None),
 ])
-spec("C13_micro", "shutdown() split into its stages: the flag is final and refuses every call that begins after it", [M], [
-    (M, "micro_shut_stable", None), (M, "micro_after_flag_refused", None), (M, "mcall_atomic", "shutdown_stages_compose"),
+spec("C13_micro", "shutdown() split into its stages: the flag is final and refuses every call that begins after it", [M, "MicroBal", "MicroAll"], [
+    ("MicroAll", "micro_shut_stable_all", None), (M, "micro_shut_stable", None), (M, "micro_after_flag_refused", None), (M, "mcall_atomic", "shutdown_stages_compose"),
 ])
 spec("C07_micro", "put split at its schedule points: the race between two puts of one key", [M], [
     (M, "racing_puts_one_wins", None), (M, "minv_run", None), (M, "mcall_atomic", None), (M, "mput_atomic", None),
@@ -117,8 +118,8 @@ spec("C16_micro", "Key and weight balances at every state of every micro schedul
 spec("C15_micro", "Hit accounting with reads split between the store lookup and the access record", [M, "MicroStats"], [
     ("MicroStats", "micro_hits_accounted_run", None), ("MicroStats", "read_in_flight_witness", None), (M, "mcall_atomic", None),
 ])
-spec("C02_micro", "Reads split at their schedule points", [M], [
-    (M, "mcall_atomic", None), (M, "micro_soft_deleted_stays_hidden", "deleted_value_never_returned_micro"),
+spec("C02_micro", "Reads split at their schedule points", [M, "MicroBal", "MicroAll"], [
+    (M, "mcall_atomic", None), ("MicroAll", "micro_hidden_run", "deleted_value_never_returned_micro"),
 ])
 spec("C11_micro", "Writes split between building the command and sending it", [M], [
     (M, "mcall_atomic", None), (M, "mdelete_atomic", None), (M, "mput_atomic", None), (M, "micro_schedule_refines", None),
